@@ -79,4 +79,265 @@ WITNESSES = [
                             for obj in term.objects)
             if not forbidden:
                 res += term"""),
+    # ---- breaking witnesses for the checks introduced with the semantic re-foundation
+    dict(id="c01-contraction-args-swapped", prop="C01", file=F, expect=["R01b", "R01e"],
+         old="c = _contraction(op_string[0], op_string[i])", new="c = _contraction(op_string[i], op_string[0])"),
+    dict(id="c01-opstring-reversed", prop="C01", file=F, expect=["R01d", "R01e"],
+         old="                op_string.append(factor)", new="                op_string.insert(0, factor)"),
+    dict(id="c01-fresh-index-unrestricted", prop="C01", file=F, expect="R01a",
+         old="KroneckerDelta(q_idx, Index('a', above_fermi=True))", new="KroneckerDelta(q_idx, Index('a'))"),
+    dict(id="c01-fresh-delta-only", prop="C01", file=F, expect="R01a",
+         old="""            return (KroneckerDelta(p_idx, q_idx) *
+                    KroneckerDelta(q_idx, Index('i', below_fermi=True)))""",
+         new="""            return KroneckerDelta(q_idx, Index('i', below_fermi=True))"""),
+    dict(id="c01-zero-break", prop="C01", file=F, expect="R01b",
+         old="""        if c is S.Zero:
+            continue""",
+         new="""        if c is S.Zero:
+            break"""),
+    dict(id="c01-e2e-prefilter-substring", prop="C01", file=F, expect="R01e",
+         old="    if not _has_fully_contracted_contribution(op_string):",
+         new="    if not _has_fully_contracted_contribution(op_string[1:]):"),
+    dict(id="c01-rules-assumptions-lost", prop="C01", file="rules.py", expect="R01d",
+         old="res = e.Expr(0, **expr.assumptions)", new="res = e.Expr(0)"),
+    dict(id="c01-rules-inverted", prop="C01", file="rules.py", expect="R01d",
+         old="            if any(obj.name in self._forbidden_blocks", new="            if not any(obj.name in self._forbidden_blocks"),
+    dict(id="c01-rules-term-twice", prop="C01", file="rules.py", expect="R01d",
+         old="            res += term", new="            res += term\n            res += term"),
+    dict(id="c01-rules-guard-removed", prop="C01", file="rules.py", expect="R01d",
+         old="        if not isinstance(expr, e.Expr):\n            raise TypeError(f\"Expression needs to be provided as {e.Expr}\")\n",
+         new=""),
+    dict(id="c01-rules-empty-none-only", prop="C01", file="rules.py", expect="R01d",
+         old="return not bool(self._forbidden_blocks)", new="return self._forbidden_blocks is None"),
+    dict(id="c01-wicks-flag-ignored", prop="C01", file=F, expect="R01d",
+         old="            if simplify_kronecker_deltas:\n                result = evaluate_deltas(result)",
+         new="            result = evaluate_deltas(result)"),
+    dict(id="c01-wicks-deltas-after-rules", prop="C01", file=F, expect="R01d",
+         edits=[("            if simplify_kronecker_deltas:\n                result = evaluate_deltas(result)\n", ""),
+                ("    return rules.apply(Expr(result)).sympy",
+                 "    result = rules.apply(Expr(result)).sympy\n    if simplify_kronecker_deltas:\n"
+                 "        result = evaluate_deltas(result)\n    return result")]),
+    dict(id="c01-wicks-doit-plain", prop="C01", file=F, expect="R01d",
+         old="expr = expr.doit(wicks=True).expand()", new="expr = expr.doit().expand()"),
+    dict(id="c01-wicks-add-drops-rules", prop="C01", file=F, expect="R01d",
+         old="        return Add(*[wicks(term, rules=rules,\n                           simplify_kronecker_deltas=simplify_kronecker_deltas)",
+         new="        return Add(*[wicks(term,\n                           simplify_kronecker_deltas=simplify_kronecker_deltas)"),
+    dict(id="c01-wicks-add-skips-first", prop="C01", file=F, expect="R01d",
+         old="                     for term in expr.args])", new="                     for term in expr.args[1:]])"),
+    dict(id="c01-wicks-rules-real", prop="C01", file=F, expect="R01d",
+         old="return rules.apply(Expr(result)).sympy", new="return rules.apply(Expr(result, real=True)).sympy"),
+    dict(id="c01-wicks-target-idx", prop="C01", file=F, expect="R01d",
+         old="                result = evaluate_deltas(result)", new="                result = evaluate_deltas(result, '')"),
+    dict(id="c01-wicks-cpart-twice", prop="C01", file=F, expect="R01d",
+         old="result = (Mul(*c_part) * result).expand()", new="result = (Mul(*c_part) * Mul(*c_part) * result).expand()"),
+    # ---- behaviour preserving, kinds not in the refactoring corpus
+    # table-driven dispatch instead of an if-tree
+    dict(id="c01-ok-table-driven", prop="C01", file=F, expect=None,
+         old="""    if isinstance(p, F) and isinstance(q, Fd):
+        if space_p == "o" or space_q == "o":
+            return S.Zero
+        elif space_p == "v" or space_q == "v":
+            return KroneckerDelta(p_idx, q_idx)
+        else:
+            return (KroneckerDelta(p_idx, q_idx) *
+                    KroneckerDelta(q_idx, Index('a', above_fermi=True)))
+    elif isinstance(p, Fd) and isinstance(q, F):
+        if space_p == "v" or space_q == "v":
+            return S.Zero
+        elif space_p == "o" or space_q == "o":
+            return KroneckerDelta(p_idx, q_idx)
+        else:
+            return (KroneckerDelta(p_idx, q_idx) *
+                    KroneckerDelta(q_idx, Index('i', below_fermi=True)))
+    else:  # vanish if 2xAnnihilator or 2xCreator
+        return S.Zero""",
+         new="""    table = {(True, False): ("o", "v", "a", {"above_fermi": True}),
+             (False, True): ("v", "o", "i", {"below_fermi": True})}
+    entry = table.get((isinstance(p, F), isinstance(q, F)))
+    if entry is None or isinstance(p, F) == isinstance(p, Fd) or isinstance(q, F) == isinstance(q, Fd):
+        return S.Zero
+    killed, kept, fresh_name, fresh_assumptions = entry
+    spaces = (space_p, space_q)
+    if killed in spaces:
+        return S.Zero
+    contraction = KroneckerDelta(p_idx, q_idx)
+    if kept not in spaces:
+        contraction = contraction * KroneckerDelta(q_idx, Index(fresh_name, **fresh_assumptions))
+    return contraction"""),
+    # algebraically equal expression: factors commuted, delta arguments swapped, the projector on the other index
+    dict(id="c01-ok-delta-algebra", prop="C01", file=F, expect=None,
+         old="""            return (KroneckerDelta(p_idx, q_idx) *
+                    KroneckerDelta(q_idx, Index('a', above_fermi=True)))""",
+         new="""            return (KroneckerDelta(Index('a', above_fermi=True), p_idx) *
+                    KroneckerDelta(q_idx, p_idx))"""),
+    # loop-carried sign instead of the parity of the loop index
+    dict(id="c01-ok-running-sign", prop="C01", file=F, expect=None,
+         old="""    for i in range(1, len(op_string)):
+        c = _contraction(op_string[0], op_string[i])
+        if c is S.Zero:
+            continue
+        if not i % 2:  # introduce -1 for swapping operators
+            c *= S.NegativeOne
+""",
+         new="""    sign = S.NegativeOne
+    for i in range(1, len(op_string)):
+        sign = -sign
+        c = sign * _contraction(op_string[0], op_string[i])
+        if c is S.Zero:
+            continue
+"""),
+    # remaining operators selected by an index filter instead of two slices
+    dict(id="c01-ok-remaining-filter", prop="C01", file=F, expect=None,
+         old="remaining = op_string[1:i] + op_string[i+1:]",
+         new="remaining = [op for pos, op in enumerate(op_string) if pos not in (0, i)]"),
+    # running sum instead of collecting the summands for Add(*..)
+    dict(id="c01-ok-running-sum", prop="C01", file=F, expect=None,
+         edits=[("    result = []\n    for i in range(1, len(op_string)):", "    result = S.Zero\n    for i in range(1, len(op_string)):"),
+                ("            result.append(c * _contract_operator_string(remaining))",
+                 "            result += c * _contract_operator_string(remaining)"),
+                ("            result.append(c)\n    return Add(*result)", "            result += c\n    return result")]),
+    # other data structure and a closed formula in the prefilter
+    dict(id="c01-ok-prefilter-keyed-counts", prop="C01", file=F, expect=None,
+         old="""    create = {space: 0 for space in Indices.base.keys()}
+    annihilate = {space: 0 for space in Indices.base.keys()}
+    for op in op_string:
+        if isinstance(op, Fd):
+            counter = create
+        else:
+            counter = annihilate
+        counter[op.args[0].space] += 1
+    # check that we have a matching amount of creation and annihilation
+    # operators
+    for space, n_create in create.items():
+        if space == "general":
+            continue
+        n_annihilate = annihilate[space] + annihilate["general"]
+        if n_create - n_annihilate > 0:
+            return False
+    return True""",
+         new="""    counts = {}
+    for op in op_string:
+        key = (isinstance(op, Fd), op.args[0].space)
+        counts[key] = counts.get(key, 0) + 1
+    n_general = counts.get((False, "general"), 0)
+    return all(counts.get((True, space), 0) <= counts.get((False, space), 0) + n_general
+               for space in Indices.base if space != "general")"""),
+    # forbidden (name, block) pairs collected once (the correct version of the optimisation seeded as C01-1)
+    dict(id="c01-ok-rules-pair-set", prop="C01", file="rules.py", expect=None,
+         old="""        res = e.Expr(0, **expr.assumptions)
+        for term in expr.terms:
+            # remove the forbidden blocks of tensors
+            if any(obj.name in self._forbidden_blocks
+                   and obj.space in self._forbidden_blocks[obj.name]
+                   for obj in term.objects):
+                continue
+            res += term
+        return res""",
+         new="""        forbidden = {(name, block) for name, blocks in self._forbidden_blocks.items() for block in blocks}
+        kept = [term for term in expr.terms
+                if not any((obj.name, obj.space) in forbidden for obj in term.objects)]
+        res = e.Expr(0, **expr.assumptions)
+        for term in kept:
+            res += term
+        return res"""),
+    dict(id="c01-ok-is-empty-explicit", prop="C01", file="rules.py", expect=None,
+         old="return not bool(self._forbidden_blocks)",
+         new="return self._forbidden_blocks is None or len(self._forbidden_blocks) == 0"),
+    # wicks: explicit accumulation for Add, partition by two comprehensions, Mul flattening, reordered exits
+    dict(id="c01-ok-wicks-restructured", prop="C01", file=F, expect=None,
+         edits=[("""        return Add(*[wicks(term, rules=rules,
+                           simplify_kronecker_deltas=simplify_kronecker_deltas)
+                     for term in expr.args])""",
+                 """        total = S.Zero
+        for term in expr.args:
+            total += wicks(term, rules, simplify_kronecker_deltas)
+        return total"""),
+                ("""        c_part = []
+        op_string = []
+        for factor in expr.args:
+            if factor.is_commutative:
+                c_part.append(factor)
+            else:
+                op_string.append(factor)
+""",
+                 """        c_part = [factor for factor in expr.args if factor.is_commutative]
+        op_string = [factor for factor in expr.args if not factor.is_commutative]
+"""),
+                ("result = (Mul(*c_part) * result).expand()", "result = Mul(*c_part, result).expand()"),
+                ("""    if rules is None:
+        return result
+    elif not isinstance(rules, Rules):
+        raise TypeError(f"Rules needs to be of type {Rules}")
+
+    return rules.apply(Expr(result)).sympy""",
+                 """    if rules is not None:
+        if not isinstance(rules, Rules):
+            raise TypeError(f"Rules needs to be of type {Rules}")
+        restricted = rules.apply(Expr(result))
+        result = restricted.sympy
+    return result""")]),
+    # spaces compared by their full names
+    dict(id="c01-ok-full-space-names", prop="C01", file=F, expect=None,
+         edits=[("""    space_p, space_q = p_idx.space[0], q_idx.space[0]
+    assert space_p in ["o", "v", "g"] and space_q in ["o", "v", "g"]""",
+                 """    space_p, space_q = {"occ": "o", "virt": "v", "general": "g"}[p_idx.space], q_idx.space[:1]
+    assert {space_p, space_q} <= set("ovg")""")]),
+    # the dual counting criterion (creators and annihilators exchanged) is a necessary condition as well: the
+    # prefilter answers differently on some strings, never False for a string with a complete contraction
+    dict(id="c01-ok-prefilter-dual", prop="C01", file=F, expect=None,
+         old="        if isinstance(op, Fd):\n            counter = create", new="        if isinstance(op, F):\n            counter = create"),
+    # sign applied before the zero test, zero test by value
+    dict(id="c01-ok-zero-via-mul", prop="C01", file=F, expect=None,
+         old="""        if c is S.Zero:
+            continue
+        if not i % 2:  # introduce -1 for swapping operators
+            c *= S.NegativeOne""",
+         new="""        if not i % 2:  # introduce -1 for swapping operators
+            c = -c
+        if c == 0:
+            continue"""),
+    # for/else with try/except instead of any(..)
+    dict(id="c01-ok-rules-try-for-else", prop="C01", file="rules.py", expect=None,
+         old="""            if any(obj.name in self._forbidden_blocks
+                   and obj.space in self._forbidden_blocks[obj.name]
+                   for obj in term.objects):
+                continue
+            res += term""",
+         new="""            for obj in term.objects:
+                try:
+                    blocks = self._forbidden_blocks[obj.name]
+                except KeyError:
+                    continue
+                if obj.space in blocks:
+                    break
+            else:
+                res += term"""),
+    # early exit when the contraction vanishes (zero needs no rules)
+    dict(id="c01-ok-wicks-early-zero", prop="C01", file=F, expect=None,
+         old="            result = _contract_operator_string(op_string)\n",
+         new="            result = _contract_operator_string(op_string)\n            if result is S.Zero:\n                return S.Zero\n"),
+    # starred unpacking and a while loop
+    dict(id="c01-ok-first-rest-while", prop="C01", file=F, expect=None,
+         old="    result = []\n    for i in range(1, len(op_string)):\n        c = _contraction(op_string[0], op_string[i])",
+         new="    result = []\n    first, *rest = op_string\n    i = 0\n    while i < len(rest):\n        i += 1\n"
+             "        c = _contraction(first, rest[i - 1])"),
+    # the Fd/F row tested with `and`: (occ, general) now takes the projector branch, delta_pq * [q occupied], which has
+    # the same value because p is occupied
+    dict(id="c01-ok-table-redundant-projector", prop="C01", file=F, expect=None,
+         old='        elif space_p == "o" or space_q == "o":\n            return KroneckerDelta(p_idx, q_idx)',
+         new='        elif space_p == "o" and space_q == "o":\n            return KroneckerDelta(p_idx, q_idx)'),
+    dict(id="c01-is-empty-never", prop="C01", file="rules.py", expect="R01d",
+         old="return not bool(self._forbidden_blocks)", new="return False"),
+    # a single operator handled by the general branch: the contraction of a string of odd length vanishes (prefilter),
+    # so the value is still zero
+    dict(id="c01-ok-wicks-single-op-general-branch", prop="C01", file=F, expect=None,
+         old="        elif n == 1:  # a single operator\n            return S.Zero\n", new=""),
+    dict(id="c01-wicks-bare-operator", prop="C01", file=F, expect="R01d",
+         old="    if isinstance(expr, (NO, FermionicOperator)):\n        return S.Zero\n",
+         new="    if isinstance(expr, NO):\n        return S.Zero\n"),
+    dict(id="c01-prefilter-skips-first", prop="C01", file=F, expect=["R01c", "R01e"],
+         old="    for op in op_string:\n        if isinstance(op, Fd):", new="    for op in op_string[1:]:\n        if isinstance(op, Fd):"),
+    dict(id="c01-partition-swapped", prop="C01", file=F, expect=["R01d", "R01e"],
+         old="            if factor.is_commutative:\n                c_part.append(factor)",
+         new="            if not factor.is_commutative:\n                c_part.append(factor)"),
 ]
